@@ -333,6 +333,7 @@ impl Check for C10 {
     }
 
     fn shard(&self, ctx: &mut ShardCtx) {
+        ctx.max_shrink_iters = 250; // every evaluation runs several renderings / subprocesses
         let n = ctx.tier.pick(600, 10_000);
         let plain = (tape_strategy(500), tape_strategy(600))
             .prop_map(|(tape, layout_tape)| Case { tape, layout_tape, injection: None });
